@@ -45,7 +45,8 @@ MANIFEST = {
             'stacking independent files equals the concatenation in argument '
             'order with non-stack variables from the first file; slicing the '
             'stack at a piece extent reproduces the piece; stack_files and '
-            'pncmfopen agree.',
+            'pncmfopen agree.'
+            ' Also: masked variables with fill value 0; a path listed more than once in pncmfopen contributes its block each time.',
     'note': 'Trusted: z3, numpy concatenate/indexing itself, the reference '
             'concatenation written in the harness. Files on disk and '
             'warnings text are outside.',
